@@ -128,6 +128,9 @@ class Sym:
             if v1 is None or v2 is None:
                 continue
             preds = self.cfg.pred[d2.id]
+            while len(preds) == 1 and self.cfg.nodes[preds[0][0]].kind == "stmt" \
+                    and isinstance(self.cfg.nodes[preds[0][0]].ast, ast.Pass):
+                preds = self.cfg.pred[preds[0][0]]
             if len(preds) != 1:
                 continue
             pid, lab = preds[0]
@@ -685,9 +688,13 @@ def run_layout_table(ctx, r):
 
     # reader 1: the downloader
     so = idx.func(SHARE + "._satisfy_offsets")
-    vers, names, loop, nst = reader_tables(idx, so, {"table_start", "self._fieldsize", "self._fieldstruct"})
+    tpops = [c for c in calls_in_func(so, "pop") if len(c.args) == 2 and isinstance(c.args[0], ast.Name)]
+    if len(tpops) != 1:
+        raise AnchorVanished("_satisfy_offsets: read of the offset table at a local start position not found")
+    skeys = (tpops[0].args[0].id, "self._fieldsize", "self._fieldstruct")
+    vers, names, loop, nst = reader_tables(idx, so, set(skeys))
     r.count(nst)
-    compare(so, vers, names, loop, ("table_start", "self._fieldsize", "self._fieldstruct"), "Share._satisfy_offsets")
+    compare(so, vers, names, loop, skeys, "Share._satisfy_offsets")
     # the table is unpacked as len(names) big-endian fields of that code and popped with len(names) * fieldsize
     nrm = N(so)
     up = [c for c in calls_in_func(so, "unpack") if len(c.args) == 2 and "self._fieldstruct" in nrm.norm(c.args[0])]
@@ -717,9 +724,21 @@ def run_layout_table(ctx, r):
 
     # reader 2: ReadBucketProxy (checker / helper path)
     po = idx.func(RBP + "._parse_offsets")
-    vers, names, loop, nst = reader_tables(idx, po, {"x", "fieldsize", "fieldstruct"})
+    # the locals holding (table position, field size, field format): the names used by unpack(<fmt>, data[<pos>:<pos>+<size>])
+    keys = None
+    for c in calls_in_func(po, "unpack"):
+        if len(c.args) == 2 and isinstance(c.args[0], ast.Name) and isinstance(c.args[1], ast.Subscript) \
+                and isinstance(c.args[1].slice, ast.Slice):
+            sl = c.args[1].slice
+            if isinstance(sl.lower, ast.Name) and isinstance(sl.upper, ast.BinOp) and isinstance(sl.upper.op, ast.Add):
+                ns = [x.id for x in (sl.upper.left, sl.upper.right) if isinstance(x, ast.Name)]
+                if len(ns) == 2 and sl.lower.id in ns and ns[0] != ns[1]:
+                    keys = (sl.lower.id, [x for x in ns if x != sl.lower.id][0], c.args[0].id)
+    if keys is None:
+        raise AnchorVanished("_parse_offsets: unpack(<format>, data[<pos>:<pos>+<size>]) of one table field not found")
+    vers, names, loop, nst = reader_tables(idx, po, set(keys))
     r.count(nst)
-    compare(po, vers, names, loop, ("x", "fieldsize", "fieldstruct"), "ReadBucketProxy._parse_offsets")
+    compare(po, vers, names, loop, keys, "ReadBucketProxy._parse_offsets")
 
 
 # ------------------------------------------------------- region contiguity
@@ -1087,13 +1106,13 @@ def run_padtrim(ctx, r):
     # padding or an edge on which the data is known to have the full length
     def full_len(n, lab):
         f = fng.edge_fact(n, lab)
-        if not f or f[0] not in ("==", "<="):
+        if not f or f[0] not in ("==", "<=", "<"):
             return False
         l_, r_ = f[1] or "", f[2] or ""
         if f[0] == "==":
             return (bool(re.match(r"^len\(.*\)$", l_)) and bool(re.match(r"^\w+$", r_))) or \
                    (bool(re.match(r"^len\(.*\)$", r_)) and bool(re.match(r"^\w+$", l_)))
-        return bool(re.match(r"^\w+$", l_)) and bool(re.match(r"^len\(.*\)$", r_))      # read_size <= len(data)
+        return bool(re.match(r"^\w+$", l_)) and bool(re.match(r"^len\(.*\)$", r_))      # read_size <= / < len(data)
 
     def unpadded(n, lab, nxt, st):
         if lab == "exc" or nxt.kind == "raise" or n is pn[0]:
@@ -1137,12 +1156,7 @@ def run_padtrim(ctx, r):
     r.require(ok, got, got.loc(a), "the tail is not padded to num_chunks * input_chunk_size bytes: %s" % src(got, a))
     # the chunks are input_chunk_size slices of the padded data
     rets = got.cfg().find(is_return)
-    ch = rets[0].ast.value if len(rets) == 1 else None
-    if isinstance(ch, ast.Name):
-        gsy = Sym(idx, got)
-        dd_ = gsy.rd.get(rets[0].id, {}).get(ch.id, frozenset())
-        if len(dd_) == 1 and C.PARAM_DEF not in dd_:
-            ch = gsy.fnorm._def_value(got.cfg().nodes[next(iter(dd_))], ch.id)
+    ch = _returned_ast(got.cfg(), fng.rd, rets[0]) if len(rets) == 1 else None
     ok = isinstance(ch, ast.ListComp) and isinstance(ch.elt, ast.Subscript) and isinstance(ch.elt.slice, ast.Slice) \
         and len(ch.generators) == 1 and isinstance(ch.generators[0].iter, ast.Call) and call_tail(ch.generators[0].iter) == "range"
     if ok:
@@ -1174,7 +1188,8 @@ def run_padtrim(ctx, r):
               "chunk size %s is not the block size of the codec that encodes the chunks" % nf(ss.expand(gn, b[gdp[1]])))
     gb = idx.func("codec:CRSEncoder.get_block_size")
     rr = gb.cfg().find(is_return)
-    r.require(len(rr) == 1 and nf(rr[0].ast.value) == "self.share_size", gb, gb.loc(), "CRSEncoder.get_block_size does not return share_size")
+    r.require(len(rr) == 1 and nf(_returned_ast(gb.cfg(), FlowNorm(gb).rd, rr[0])) == "self.share_size", gb, gb.loc(),
+              "CRSEncoder.get_block_size does not return share_size")
 
     # ---- writer: start encodes num_segments-1 full segments and then exactly one tail
     st = idx.func(ENC + ".start")
@@ -1279,8 +1294,8 @@ def run_padtrim(ctx, r):
         r.violation(pr, pr.loc(n.ast), "a decoded segment is trimmed although it is not the tail", w)
     # the join feeds the trim and the return
     rets = pr.cfg().find(is_return)
-    ok = len(rets) == 1 and isinstance(rets[0].ast.value, ast.Tuple) and isinstance(rets[0].ast.value.elts[0], ast.Name) \
-        and rets[0].ast.value.elts[0].id in node_stores(tn[0])
+    rv = _returned_ast(pr.cfg(), FlowNorm(pr).rd, rets[0]) if len(rets) == 1 else None
+    ok = isinstance(rv, ast.Tuple) and isinstance(rv.elts[0], ast.Name) and rv.elts[0].id in node_stores(tn[0])
     r.require(ok, pr, pr.loc(rets[0].ast if rets else None), "the trimmed segment is not what _process returns")
     # must-follow: on the tail path the trim is not skipped
     cfgp = pr.cfg()
@@ -1930,7 +1945,9 @@ def run_satisfaction_loop(ctx, r):
 
     # the request queue whose head the round works on
     act = idx.func(SHARE + "._active_segnum_and_observers")
-    queues = {attr_path(x.value) for n in act.cfg().find(is_return) for x in own_nodes(n.ast)
+    ard = FlowNorm(act).rd
+    queues = {attr_path(x.value) for n in act.cfg().find(is_return) if n.ast.value is not None
+              for x in own_nodes(_returned_ast(act.cfg(), ard, n))
               if isinstance(x, ast.Subscript) and isinstance(x.slice, ast.Constant) and x.slice.value == 0}
     queues.discard(None)
     if len(queues) != 1 or not next(iter(queues)).startswith("self."):
@@ -1939,10 +1956,14 @@ def run_satisfaction_loop(ctx, r):
 
     def retires(n):
         for c in node_calls(n):
-            if isinstance(c.func, ast.Attribute) and attr_path(c.func.value) == queue and c.func.attr in ("pop", "popleft", "remove", "clear"):
-                return True
+            if isinstance(c.func, ast.Attribute) and attr_path(c.func.value) == queue:
+                if c.func.attr == "pop" and len(c.args) == 1 and isinstance(c.args[0], ast.Constant) and c.args[0].value == 0:
+                    return True
+                if c.func.attr in ("popleft", "clear") and not c.args:
+                    return True
         if n.kind == "stmt" and isinstance(n.ast, ast.Delete):
-            return any(isinstance(t, ast.Subscript) and attr_path(t.value) == queue for t in n.ast.targets)
+            return any(isinstance(t, ast.Subscript) and attr_path(t.value) == queue and isinstance(t.slice, ast.Constant)
+                       and t.slice.value == 0 for t in n.ast.targets)
         return n.kind == "stmt" and isinstance(n.ast, (ast.Assign, ast.AugAssign)) and queue in node_stores(n)
 
     # ---- (A) the unsatisfied edge of every stage leaves the round before any other stage runs
@@ -2009,9 +2030,8 @@ def run_satisfaction_loop(ctx, r):
         vis, par = explore(fcfg, (False, frozenset()), transfer)
         r.count(len(vis))
         told = set()
-        for q in fcfg.find(is_return):
-            if _return_truth(q, {}, fcfg, frd) is True:
-                r.site(fn, q.ast, "%s only after %s is retired" % (src(fn, q.ast), queue))
+        for q in fcfg.find(retires):
+            r.site(fn, q.ast, "%s retires the head of %s before a true value is returned" % (src(fn, q.ast), queue))
         for (nid, st) in sorted(vis, key=lambda x: (x[0], x[1][0], sorted(x[1][1]))):
             q = fcfg.nodes[nid]
             if not is_return(q) or st[0] or nid in told or any(q is n_ for (n_, _c, _m) in returned):
